@@ -74,7 +74,7 @@ func (f *FragmentBuffer) AdvanceTo(messageSequence uint16) {
 // when it returns true it means the fragmentBuffer has inserted and the buffer shouldn't be handled
 // when an error returns it is fatal, and the DTLS connection should be stopped.
 func (f *FragmentBuffer) Push(buf []byte) (isHandshake, isRetransmit bool, err error) {
-	if f.size()+len(buf) >= fragmentBufferMaxSize || f.totalFragmentCount >= fragmentBufferMaxCount {
+	if len(buf) >= fragmentBufferMaxSize {
 		return false, false, dtlserrors.ErrFragmentBufferOverflow
 	}
 
@@ -86,6 +86,12 @@ func (f *FragmentBuffer) Push(buf []byte) (isHandshake, isRetransmit bool, err e
 	// fragment isn't a handshake, we don't need to handle it
 	if recordLayerHeader.ContentType != protocol.ContentTypeHandshake {
 		return false, false, nil
+	}
+
+	// The limits apply to what is stored here: a full buffer must not make
+	// the caller discard records of other content types.
+	if f.size()+len(buf) >= fragmentBufferMaxSize || f.totalFragmentCount >= fragmentBufferMaxCount {
+		return false, false, dtlserrors.ErrFragmentBufferOverflow
 	}
 
 	headerSize := recordLayerHeader.Size()
